@@ -92,15 +92,18 @@ def rule_R3(ctx, prj):
     flds = list(pairs.values())
     for m, fld in pairs.items():
         fi = st.find_method(m)
+        alias = fi is None
         if fi is None:
-            raise AnalysisError(f"ScanTotals.{m} not found")
+            if not any(m in c.class_attrs for c in st.mro()):
+                raise AnalysisError(f"ScanTotals.{m} not found")
+            fi = next(iter(st.methods.values()))      # defined in the class body by an expression (partialmethod, a factory ...)
         # two generic language totals stand for the collection (the methods treat the elements uniformly)
         ts = [Sym(f"T{i}", _cls=lt, language=f"lang{i}", **{f: Sym(f"T{i}.{f}") for f in flds}) for i in (1, 2)]
         it = MiniInterp(prj)
         try:
             me = it.construct(st, [{"lang1": ts[0], "lang2": ts[1]}], {}, None, fi)
             r = it.getattr(me, m, fi, None)
-            if not fi.is_property():
+            if alias or not fi.is_property():
                 r = it.call_callable(r, [], {})
             got = Lin.of(r)
         except (Unknown, PyRaise) as e:
